@@ -50,11 +50,22 @@ def run_case(case):
         return (all(o["ns"] != n for j, o in enumerate(u["lists"]) if j != l - 1) and all(m["ns"] != n for m in u["mats"])
                 and all(a["ns"] != n and a["sd"] != n for a in u["arrs"]) and u["ds"]["att"] != n
                 and all(t["ns"] != n for j, t in enumerate(u["trees"]) if (j + 1) not in L["trees"]))
+    def sole_m(m):
+        n = u["mats"][m - 1]["ns"]
+        return (all(o["ns"] != n for j, o in enumerate(u["mats"]) if j != m - 1) and all(L["ns"] != n for L in u["lists"])
+                and all(a["ns"] != n and a["sd"] != n for a in u["arrs"]) and u["ds"]["att"] != n
+                and all(t["ns"] != n for t in u["trees"]))
+    sd = case.get("seed", 0)
+    done = False
     if u["lists"] and path:
         cands = [l for l in range(1, len(u["lists"]) + 1) if sole(l) and u["lists"][l - 1]["trees"]]
-        if cands:
-            sd = case.get("seed", 0)
+        if cands and sd % 3 != 2:
             evs.append(w.call("TLClearReconstruct", {"l": cands[sd % len(cands)], "unify": bool((sd // 7) % 2)}, rng, pre=u))
+            done = True
+    if u["mats"] and path and not done:
+        cands = [m for m in range(1, len(u["mats"]) + 1) if sole_m(m) and u["mats"][m - 1]["rows"]]
+        if cands:
+            evs.append(w.call("CMClearReconstruct", {"m": cands[sd % len(cands)], "unify": bool((sd // 7) % 2)}, rng, pre=u))
     return evs
 
 
